@@ -305,6 +305,38 @@ def run(ctx):
                     break
                 viol.append({"what": "TURTLE_ITER document in free layout, %s raised %s: %s" % (fmt, r[1], r[2]), "where": r[3] if len(r) > 3 else "", "doc": doc})
                 break
+    # ---------------- (b5) shape-map shapes that end up without constraints (a node that is only ever an object; nodes sharing no feature
+    # under a threshold), with examples_mode, disjunctions, inverse paths, removal of empty shapes on and off, both formats
+    stats["shape_map_option_cases"] = 0
+    for i in range(60 if ctx.tier == "quick" else 900):
+        nb, nc, na = rng.randint(2, 3), rng.randint(1, 3), rng.randint(2, 4)
+        g = []
+        for j in range(nb):
+            g.append((I('b%d' % j), EX + 'only_b%d' % j, L('v')))
+        for j in range(nc):
+            g.append((I('c%d' % j), EX + 'label', L('c')))
+        for j in range(na):
+            g.append((I('a%d' % j), EX + 'knows', I('b%d' % rng.randrange(nb))))
+            g.append((I('a%d' % j), EX + 'knows', I('c%d' % rng.randrange(nc))))
+            g.append((I('a%d' % j), EX + 'sees', I('leaf')))                       # 'leaf' has no triple of its own
+        g = list(dict.fromkeys(g))
+        rng.shuffle(g)
+        names = ['a%d' % j for j in range(na)] + ['b%d' % j for j in range(nb)] + ['c%d' % j for j in range(nc)] + ['leaf']
+        sm = "".join("<%s%s>@<%sshape%s>\n" % (EX, n_, EX, n_[0].upper()) for n_ in names)
+        kw = dict(disable_or_statements=rng.random() < 0.5, remove_empty_shapes=rng.random() < 0.5, inverse_paths=rng.random() < 0.5,
+                  examples_mode=rng.choice([None, C.SHAPE_EXAMPLES, C.CONSTRAINT_EXAMPLES, C.ALL_EXAMPLES]),
+                  detect_minimal_iri=rng.random() < 0.3, all_classes_mode=rng.random() < 0.2)
+        kw['allow_redundant_or'] = (not kw['disable_or_statements']) and rng.random() < 0.5
+        th = rng.choice([0.0, 0.6, 2 / 3, 1.0])
+        for fmt in (C.SHEXC, C.SHACL_TURTLE):
+            r = call(lambda: Shaper(raw_graph=to_nt(g), input_format=C.NT, shape_map_raw=sm, **kw).shex_graph(string_output=True, acceptance_threshold=th, output_format=fmt))
+            stats["shape_map_option_cases"] += 1
+            stats["pipeline_calls"] += 1
+            if r is not None:
+                stats["exceptions"][r[1]] = stats["exceptions"].get(r[1], 0) + 1
+                viol.append({"what": "shape map with options %s, threshold %s, %s raised %s: %s" % ({k: v for k, v in kw.items() if v}, th, fmt, r[1], r[2]),
+                             "where": r[3] if len(r) > 3 else "", "shape_map": sm, "nt": to_nt(g)})
+                break
     # ---------------- (c) other accepted configurations: every input syntax, shape maps, empty target list
     import rdflib
     stats["syntax_calls"] = {}
@@ -372,5 +404,6 @@ def run(ctx):
                            "blank-node values with/without classes, non-target classes, nodes without outgoing triples, one-instance classes, "
                            "language tags) x accepted configurations x {ShExC, SHACL} x {shex_graph, profile_graph}; (b2) the same with disjunctions enabled "
                            "(with / without allow_redundant_or) and with predicates, classes, object IRIs and datatypes of the schemes urn:, mailto:, ftp:, tag:, a "
-                           "one-letter scheme and one with digits / + / . / -; (b3) sequences of shex_graph / profile_graph calls on one Shaper; (b4) Turtle documents of the C07 layout generator through TURTLE_ITER" % ((2, 3) if ctx.tier == "quick" else (3, 4)),
+                           "one-letter scheme and one with digits / + / . / -; (b3) sequences of shex_graph / profile_graph calls on one Shaper; (b4) Turtle documents of the C07 layout generator through TURTLE_ITER; (b5) shape maps with shapes that end up empty x examples_mode x "
+                           "disjunctions x inverse paths x removal of empty shapes" % ((2, 3) if ctx.tier == "quick" else (3, 4)),
                            DEPS)
